@@ -45,6 +45,11 @@ def build(s, labels=None, var=None):
     for p in s["p0s"]:
         meta["eg"].append(pp.create_ext_grid(net, lab[1], p_bar=p / 1e6, t_k=float(s.get("t0", 300.0)), type="pt"))
     counters = {}
+    if var.get("idle_pump_first") and len(nodes) >= 2:
+        from pandapipes.std_types.std_type_class import PumpStdType
+        from pandapipes.std_types.std_types import create_pump_std_type
+        create_pump_std_type(net, "idle_type", PumpStdType("idle_type", np.array([0.0, 9.0])))
+        pp.create_pump(net, lab[1], lab[2], "idle_type", in_service=False, index=77)
 
     def nextlab(tbl):
         c = counters.get(tbl, 0)
@@ -105,6 +110,15 @@ def build(s, labels=None, var=None):
             l = pp.create_heat_exchanger(net, a, b, qext_w=(4000.0 * th["m"] * th["dT"]) if th else 0.0, inner_diameter_mm=DSTAR * 1000.0,
                                          loss_coefficient=zeta, index=nextlab("heat_exchanger"))
             return "heat_exchanger", l, l
+        if kind == "pump":
+            from pandapipes.std_types.std_type_class import PumpStdType
+            from pandapipes.std_types.std_types import create_pump_std_type
+            name = "designed_%d_%d" % (N, int(zeta))
+            if name not in net.std_types["pump"]:
+                # lift [bar] = N - zeta/10 * mdot[kg/s] = N - zeta/36 * Q[m3/h]   (rho = 1000)
+                create_pump_std_type(net, name, PumpStdType(name, np.array([-zeta / 36.0, float(N)])))
+            l = pp.create_pump(net, a, b, name, index=nextlab("pump"))
+            return "pump", l, l
         raise ValueError(kind)
 
     def hm(k):
